@@ -165,8 +165,37 @@ func Sanitize(c *core.Ctx, rule string, p *packages.Package) {
 							return true
 						})
 					}
+					// a local of the combinator bound once to a literal that does nothing but clone its parameter
+					// (cloneElem := func(v T) T { return inst.Get().Clone(v) }) clones like the method itself
+					wrapperFns := map[types.Object]bool{}
+					ast.Inspect(fd.Body, func(x ast.Node) bool {
+						as, ok := x.(*ast.AssignStmt)
+						if !ok || as.Tok != token.DEFINE || len(as.Lhs) != 1 || len(as.Rhs) != 1 {
+							return true
+						}
+						wl, ok := ast.Unparen(as.Rhs[0]).(*ast.FuncLit)
+						if !ok || len(wl.Type.Params.List) != 1 || len(wl.Type.Params.List[0].Names) != 1 || len(wl.Body.List) != 1 {
+							return true
+						}
+						ret, ok := wl.Body.List[0].(*ast.ReturnStmt)
+						if !ok || len(ret.Results) != 1 {
+							return true
+						}
+						call, ok := ast.Unparen(ret.Results[0]).(*ast.CallExpr)
+						if !ok || len(call.Args) != 1 || objOf(info, call.Args[0]) != info.Defs[wl.Type.Params.List[0].Names[0]] {
+							return true
+						}
+						if isCloneMethodValue(info, call.Fun) || cloneFns[objOf(info, call.Fun)] {
+							if o := objOf(info, as.Lhs[0]); o != nil {
+								wrapperFns[o] = true
+							} else if id, isId := as.Lhs[0].(*ast.Ident); isId && info.Defs[id] != nil {
+								wrapperFns[info.Defs[id]] = true
+							}
+						}
+						return true
+					})
 					isCloner := func(e ast.Expr) bool {
-						return isCloneMethodValue(info, e) || cloneFns[objOf(info, e)]
+						return isCloneMethodValue(info, e) || cloneFns[objOf(info, e)] || wrapperFns[objOf(info, e)]
 					}
 					// classify every maximal accessor path
 					var visit func(n ast.Node, ctx string)
